@@ -32,6 +32,9 @@ type shape struct {
 	// layout directives resolved by render: 'm' = tfra offsets of all moofs / sidx ref sizes of following boxes
 	auto byte
 	size int // filled by layout
+	// large: rendered with the 16-byte largesize header (size field 1 + 64-bit size).  Only for the two kinds whose
+	// decoded Size() is the number of bytes consumed (mdat keeps LargeSize; 'U' becomes an unknown box, Size() = hdr.Size).
+	large bool
 }
 
 func (t trafShape) String() string {
@@ -162,6 +165,9 @@ func (s *shape) renderFixed() []byte {
 		}
 		return box("moof", parts...)
 	case 'D':
+		if s.large {
+			return lmdat(s.payload)
+		}
 		return mdat(s.payload)
 	case 'A':
 		var t [][]byte
@@ -170,6 +176,9 @@ func (s *shape) renderFixed() []byte {
 		}
 		return mfra(t...)
 	case 'U':
+		if s.large {
+			return lbox("zzzz")
+		}
 		return free(0)
 	}
 	panic("bad shape kind")
@@ -273,6 +282,7 @@ func alphabet() []*shape {
 		{kind: 'A'}, {kind: 'A', tfras: []tfraShape{{1, nil}}}, {kind: 'A', auto: 'm'},
 		{kind: 'A', tfras: []tfraShape{{1, []uint32{0}}}},
 		{kind: 'U'},
+		{kind: 'D', payload: 0, large: true}, {kind: 'D', payload: 4, large: true}, {kind: 'U', large: true},
 	}
 }
 
@@ -310,7 +320,7 @@ func randomList(r *hx.Rng) []*shape {
 			}
 			l = append(l, &shape{kind: 'O', trafs: ts})
 			if r.Intn(5) > 0 {
-				l = append(l, &shape{kind: 'D', payload: r.Pick(0, 4, 4)})
+				l = append(l, &shape{kind: 'D', payload: r.Pick(0, 4, 4), large: r.Intn(4) == 0})
 			}
 		case 3:
 			x := &shape{kind: 'X', first: uint32(r.Pick(0, 0, 0, 1))}
